@@ -148,6 +148,23 @@ def _kpad_const_kron_batched_nodes(r):
     return out
 
 
+def _lanczos_cell(cell):
+    return "max_cholesky_size" in cell and cell.get("fast.covar_root_decomposition", True) and not cell.get("ciq_samples")
+
+
+def _mul_leading_singleton_batch(case):
+    """MulLinearOperator with batch shape (1, b, ...) built while roots are taken by Lanczos: RootDecomposition.forward drops
+    the leading size-1 batch dimension of the operands' roots, so the product has batch shape (b, ...)."""
+    if not _lanczos_cell(case.get("cell", {})):
+        return False
+    for nd in R.walk(case["recipe"]):
+        if nd["op"] == "Mul":
+            shp = refmodel.shape(nd)
+            if len(shp) >= 4 and shp[0] == 1 and shp[-1] > case["cell"]["max_cholesky_size"]:
+                return True
+    return False
+
+
 def _normalise_for_open_findings(r, open_triggers):
     """Avoid exactly the triggering feature while the finding is open (same matrices, different class path)."""
     if "batchrepeat_unit_repeat_diag_base" in open_triggers:
@@ -239,6 +256,10 @@ def cases(draw, tier):
     elif cell_name == "ciq":
         cell = {"ciq_samples": True}
     case = {"recipe": r, "k": k, "cell": cell, "cell_name": cell_name, "mode": mode}
+    if "mul_lanczos_leading_singleton_batch" in _open_triggers() and _mul_leading_singleton_batch(case):
+        # same recipe, roots by Cholesky instead of Lanczos while the finding is open
+        case["cell"] = dict(cell, **{"fast.covar_root_decomposition": False})
+        case["cell_name"] = cell_name + "->chol"
     if mode == "precond":
         case["rank"] = draw(st.integers(1, n))
     return case
@@ -308,8 +329,10 @@ def _requested_shape(args, kwargs):
 def _krylov_margin(A, q0):
     """min_j beta_j / ||A||_2 and min_j beta_j of a float64 Lanczos run with full re-orthogonalisation on one matrix."""
     n = A.shape[-1]
+    if not torch.isfinite(A).all() or not torch.isfinite(q0).all():
+        return 0.0, 0.0  # an earlier (degenerate) root already poisoned the closure
     nrm = float(torch.linalg.matrix_norm(A, ord=2))
-    if not (nrm > 0) or not torch.isfinite(q0).all() or float(q0.norm()) == 0.0:
+    if not (nrm > 0) or float(q0.norm()) == 0.0:
         return 0.0, 0.0
     Q = [q0 / q0.norm()]
     betas = []
@@ -610,7 +633,7 @@ def check(case):
             if watch.degenerate:
                 # the failure happened after a Lanczos run on a deficient Krylov space (C09 territory)
                 return done("skip:lanczos_degenerate", extra=["lanczos_degenerate_exc:" + type(e).__name__])
-            path = info["kind"] + ":" + "+".join(state.algorithms(state._capture.lines))
+            path = info["kind"] + ":" + ("+".join(state.algorithms(state._capture.lines)) or "none")
             if X.is_declined(e, None):
                 return done("declined:" + type(e).__name__, extra=["declined_head:" + head])
             fail("cov", "exc:" + X.describe(e), "sampling raised %r" % (e,))
@@ -788,4 +811,5 @@ def coverage_extra():
 TRIGGERS = {
     "batchrepeat_unit_repeat_diag_base": lambda case: bool(_unit_repeat_diag_nodes(case["recipe"])),
     "kpad_constant_kron_diag_batched": lambda case: bool(_kpad_const_kron_batched_nodes(case["recipe"])),
+    "mul_lanczos_leading_singleton_batch": _mul_leading_singleton_batch,
 }
